@@ -95,9 +95,10 @@ func quicConf() *quic.Config {
 }
 
 type mQConn struct {
-	peer string
-	conn quic.Connection
-	used string
+	peer  string
+	conn  quic.Connection
+	used  string
+	bound bool
 }
 
 type quicWorld struct {
@@ -115,12 +116,13 @@ type quicWorld struct {
 	mu      sync.Mutex
 	pol     [2]string
 	dials   map[int]*mQConn
-	answers map[string]*mQConn
+	answers map[string]*mQConn // latest connection each peer opened to M
+	ansConn map[int]*mQConn    // model connection -> connection
 }
 
 func newQUICWorld(r *run) (world, error) {
 	w := &quicWorld{r: r, inner: map[string]p2p.Swarm[memswarm.Addr]{}, addr: map[string]memswarm.Addr{}, owner: map[string]string{},
-		swarms: map[string]*quicswarm.Swarm[memswarm.Addr]{}, pol: [2]string{"M", "own"}, dials: map[int]*mQConn{}, answers: map[string]*mQConn{}}
+		swarms: map[string]*quicswarm.Swarm[memswarm.Addr]{}, pol: [2]string{"M", "own"}, dials: map[int]*mQConn{}, answers: map[string]*mQConn{}, ansConn: map[int]*mQConn{}}
 	w.ctx, w.cf = context.WithCancel(context.Background())
 	realm := sharedRealm
 	for _, n := range nodeNames {
@@ -301,6 +303,21 @@ func (w *quicWorld) MListen(k, proof string) {
 	w.mu.Unlock()
 }
 
+func (w *quicWorld) BindAnswer(c int, peer string) {
+	// M's side of a connection may be registered a moment after the dialler's call returned
+	for i := 0; i < 30; i++ {
+		w.mu.Lock()
+		if a := w.answers[peer]; a != nil && !a.bound {
+			a.bound = true
+			w.ansConn[c] = a
+			w.mu.Unlock()
+			return
+		}
+		w.mu.Unlock()
+		time.Sleep(10 * time.Millisecond)
+	}
+}
+
 func (w *quicWorld) MDial(c int, t string) string {
 	w.mu.Lock()
 	w.dials[c] = &mQConn{peer: t, used: "none"}
@@ -321,7 +338,12 @@ func (w *quicWorld) MPresent(c int, k, proof string) string {
 		return "certificate: " + err.Error()
 	}
 	cliTLS := &tls.Config{Certificates: []tls.Certificate{cert}, InsecureSkipVerify: true, NextProtos: []string{"p2p"}}
-	ctx, cf := context.WithTimeout(w.ctx, 600*time.Millisecond)
+	// an honest-equivalent attempt is given more time (a busy machine is slow; a refusal fails by itself)
+	patience := 600 * time.Millisecond
+	if k == "M" && proof == "own" {
+		patience = 2 * time.Second
+	}
+	ctx, cf := context.WithTimeout(w.ctx, patience)
 	defer cf()
 	conn, err := w.tr.Dial(ctx, p2pconn.NewAddr[memswarm.Addr](w.inner["M"], w.addr[d.peer]), cliTLS, quicConf())
 	if err != nil {
@@ -355,7 +377,7 @@ func (w *quicWorld) mconn(c int, role, peer string) *mQConn {
 	if role == "dial" {
 		return w.dials[c]
 	}
-	return w.answers[peer]
+	return w.ansConn[c]
 }
 
 func (w *quicWorld) MUsed(c int, role, peer string) (string, bool) {
